@@ -4,19 +4,20 @@ import SonicModel.Impl.Rc
 namespace Driver
 open Sonic Sonic.Spec Sonic.Rc
 
-partial def toT : Json → T
+/-- `raw` = raw-number mode: a number is an arena node (like a string), not a static one -/
+partial def toT (raw : Bool) : Json → T
   | .null => .leaf
   | .bool _ => .leaf
-  | .num _ _ => .leaf
+  | .num _ _ => if raw then .str else .leaf
   | .str _ => .str
   | .arr [] => .emptyArr
-  | .arr xs => .arr (xs.map toT)
+  | .arr xs => .arr (xs.map (toT raw))
   | .obj [] => .emptyObj
-  | .obj ms => .obj (ms.map fun (k, v) => (k, toT v))
+  | .obj ms => .obj (ms.map fun (k, v) => (k, toT raw v))
 
-def docT (h : String) : Option T :=
+def docT (raw : Bool) (h : String) : Option T :=
   match unhex h with
-  | some buf => (docTree false buf).map toT
+  | some buf => (docTree false buf).map (toT raw)
   | none => none
 
 def keyStr (k : List UInt8) : String := String.ofList (k.map fun b => Char.ofNat b.toNat)
@@ -31,9 +32,9 @@ partial def shape (s : St) : Item → String
       "M#" ++ toString (s.ccnt c) ++ "{" ++ String.join ((s.citems c).map fun (k, it) => keyStr k ++ ":" ++ shape s it) ++ "}"
     else "O#" ++ toString (s.ccnt c) ++ "[" ++ String.join ((s.citems c).map fun (_, it) => shape s it) ++ "]"
 
-def parseOp (w : String) : Option Op :=
+def parseOp (raw : Bool) (w : String) : Option Op :=
   match w.splitOn ":" with
-  | ["P", h] => (docT h).map .parse
+  | ["P", h] => (docT raw h).map .parse
   | ["C", i] => i.toNat?.map .clone
   | ["D", i] => i.toNat?.map .drop
   | ["T", i] => i.toNat?.map .take
@@ -52,7 +53,7 @@ def parseOp (w : String) : Option Op :=
     | some j, some key => some (.remove j key.toList)
     | _, _ => none
   | ["S", _] => some .dopen
-  | ["V", h, f] => (docT h).map fun t => .dval t (f == "1")
+  | ["V", h, f] => (docT raw h).map fun t => .dval t (f == "1")
   | ["E"] => some .dclose
   | ["F", f] => some (.dfail (f == "1"))
   | ["X", _] => some (.dfail true)     -- a rejected whole-input parse: its arena is created and released by the step
@@ -63,12 +64,13 @@ def sortNat (l : List Nat) : List Nat := (l.toArray.qsort (· < ·)).toList
 /-- `c16 <op>;<op>;...` → per step: the shapes of all live values, and the arenas released by the step -/
 def c16 (args : List String) : String :=
   match args with
-  | [_mode, prog] =>
+  | [mode, prog] =>
+    let raw := mode == "r"
     let rec go (s : St) (ws : List String) (acc : List String) : List String :=
       match ws with
       | [] => acc.reverse
       | w :: rest =>
-        match parseOp w with
+        match parseOp raw w with
         | none => (s!"bad-op({w})" :: acc).reverse
         | some op =>
           match step s op with
